@@ -148,7 +148,10 @@ def _build(how, e):
         return m | O.dep_eval(e)
     if how == "view-filled":
         for x in _singles(m):
-            getattr(x, "specifier", None)
+            try:
+                getattr(x, "specifier", None)
+            except ValueError:
+                pass  # a literal that is not a version has no specifier view; nothing to fill
         return m
     raise harness.HarnessError(how)
 
